@@ -342,6 +342,9 @@ def placement_check(prop, tier):
     run.add_model(r)
     if r["violation"]:
         run.design_violation(r)
+    if prop == "C01":
+        # the encoder's arithmetic for ALL from < 2^47, to < 2^63 (unbounded integers)
+        run.add_apalache("Apa_Encoder", "X64Reaches")
     vlib.build_harness()
     scen = placement_scenarios(tier)
     groups, order, _ = vlib.run_harness("placement", scen, "placement_" + prop, timeout=3000)
@@ -433,6 +436,7 @@ def alloc_check(prop, tier):
         run.add_model(r, required_actions=("Try", "Exhausted"))
         if r["violation"]:
             run.design_violation(r)
+    run.add_apalache("Apa_Encoder", "A64AcceptedIsEncodable")
     vlib.build_harness()
     scen = alloc_scenarios(tier)
     groups, order, _ = vlib.run_harness("placement", scen, "alloc_" + prop, timeout=3000)
@@ -520,6 +524,9 @@ def times_check(prop, tier):
         run.add_model(r, required_actions=("FetchAdd", "Reject"))
         if r["violation"]:
             run.design_violation(r)
+    # arbitrary N, any number of calls: inductive invariant over unbounded integers
+    run.add_apalache("Apa_Counter", "Inv", length=0)
+    run.add_apalache("Apa_Counter", "IndInv", length=1, init="IndInit")
     # (b) sequential replay through the lifecycle machinery
     hists, gr = gen_behaviours("MC_LifecycleApi_c6q" if tier == "quick" else "MC_LifecycleApi_c6t", timeout=3000)
     run.states += gr["distinct"]
@@ -830,6 +837,7 @@ def a64_check(prop, tier):
     run.add_model(r)
     if r["violation"]:
         run.design_violation(r)
+    run.add_apalache("Apa_Encoder", "A64Reaches")
     vlib.build_harness()
     cases = a64_cases(tier)
     for c in cases:
